@@ -22,6 +22,25 @@ CHECKS = {
             "resolved program and compared with independent tables; a change made to encoder and decoder "
             "together (invisible to round-trip tests) is caught. All 55 structs / 162 rows, no sampling.",
             "Decides the declared layout, not the bytes each leaf encoding produces per value. " + TB),
+    "C01": ("other", "5.1",
+            "sibling agreement of extracted encoder/decoder tables, derives-from data flow, inverse-primitive pairing, frame-order rules over MIR",
+            "Decides five structural necessary conditions of the round trip for all 55 structs and every leaf encoding "
+            "reachable from a shipped row: writer/reader table agreement, no input-dropping encoder, inverse primitive "
+            "pairing, frame order, distinct tags. Equality decode(encode(v)) == v per value is NOT decided (value arithmetic).",
+            "Necessary conditions only; the value-level inverse (BCD digit arithmetic, padding/trimming) is out of static reach. " + TB),
+    "C13": ("other", "5.13",
+            "CFG/dominance and constant-agreement rules on the tag-dispatch loop of every generated decoder",
+            "For every generated decoder (55 structs, 122 tagged rows): one dispatch switch in one loop, per-arm constants agree "
+            "(duplicate set, DuplicateTag error, required-set removal, expected tag), required set == mandatory rows, Ok only "
+            "under is_empty(required), MissingRequiredTags derives from the whole set, unknown-tag arm inert and leaving the loop. "
+            "Holds for all inputs and all permutations because it is a property of the flow graph.",
+            TB),
+    "C15": ("proof", "5.15",
+            "decision-tree extraction: symbolic path enumeration over the two header bytes of each zvt_parse body",
+            "For each of the 17 reply enums the parser's decision tree partitions all 65,536 control fields by construction; "
+            "every variant-producing leaf is exactly the single point (CLASS, INSTR) of its payload type, decodes the whole "
+            "input with that type's own decoder and wraps its result; everything else and every short input is Err; table == spec.",
+            "Complete for the property's quantifier (control fields); body contents are delegated to the payload decoder (C02/C03). " + TB),
 }
 
 NOT_YET = "check not yet built in this commit (under construction, see DESIGN.md section 10)"
